@@ -738,7 +738,9 @@ impl InnerInMemory {
         // record as well.
         for name in record_types.keys().cloned().collect::<Vec<_>>() {
             let mut parent = name.base_name();
-            while parent.num_labels() > origin.num_labels() {
+            // `num_labels()` does not count a leading `*`, so it can't be used to stop at the
+            // origin (`*.<origin>` is an empty non-terminal too if there are names below it).
+            while origin.zone_of(&parent) && &parent != origin {
                 record_types
                     .entry(parent.clone())
                     .or_insert_with(|| (HashSet::new(), false));
